@@ -20,6 +20,8 @@ Definition t_inner : ty := st "Inner" [("b", i64); ("c", TStr)]%string.
 Definition t_outer : ty := st "Outer" [("t", t_inner)]%string.
 Definition t_e : ty := TEnum (S "E") [(S "A", VUnit); (S "B", VUnit)].
 Definition t_e2 : ty := TEnum (S "E2") [(S "N", VNewtype i64); (S "S", VStruct [(S "x", i64)]); (S "U", VUnit)].
+Definition t_e3 : ty :=
+  TEnum (S "E3") [(S "N", VNewtype (TDatetime KDate)); (S "T", VTuple [i64; i64]); (S "S", VStruct [(S "x", i64)]); (S "U", VUnit)].
 Definition t_sdeny : ty := st "SDeny" [("a", i64)]%string.
 Definition t_outer2 : ty := st "Outer2" [("u", TOpt t_inner)]%string.
 Definition t_c1 : ty := st "C1" [("d", TBool)]%string.
@@ -54,6 +56,15 @@ Definition ty_of_tag (tag : bytes) : option ty :=
   else if is "newtype"%string then Some (st "SNew" [("n", TNewtype (S "SNewtype") i64)]%string)
   else if is "vecinner"%string then Some (st "SVecInner" [("v", TSeq t_inner)]%string)
   else if is "dt"%string then Some (st "SDt" [("d", TDatetime KDatetime)]%string)
+  (* the additional types of `mod ty_extra` (command deerr2) *)
+  else if is "vdate"%string then Some (st "VD" [("v", TSeq (TDatetime KDate))]%string)
+  else if is "sdate"%string then Some (st "SD" [("d", TDatetime KDate)]%string)
+  else if is "odate"%string then Some (st "OD" [("d", TOpt (TDatetime KDate))]%string)
+  else if is "enum3"%string then Some (st "SE3" [("e", t_e3)]%string)
+  else if is "ttime"%string then Some (st "TD" [("p", TTuple [i64; TDatetime KTime])]%string)
+  else if is "vecvec"%string then Some (st "VV" [("v", TSeq (TSeq i64))]%string)
+  else if is "mapenum"%string then Some (st "ME" [("m", TMap t_e i64)]%string)
+  else if is "mapinner"%string then Some (st "MI" [("m", TMap TStr t_inner)]%string)
   else None.
 
 (* #[serde(deny_unknown_fields)] in `mod ty` *)
@@ -99,7 +110,7 @@ Definition cmd_deerr (tag text : bytes) : bytes :=
   end.
 
 Definition run_cmd (name : bytes) (args : list bytes) : bytes :=
-  if bytes_eqb name (str "deerr") then
+  if bytes_eqb name (str "deerr") || bytes_eqb name (str "deerr2") then
     match args with
     | tag :: text :: _ => cmd_deerr tag text
     | _ => str "bad-args"
